@@ -3,3 +3,11 @@ reg("C04", "exploration",
     "Exhaustive comparison of ZConfig.substitution.substitute/isname with an independently written scanner on every string over a 10-character class-representative alphabet up to length 6 (quick) / 7 (thorough) under every defined/undefined assignment of the referenced names, plus Hypothesis Unicode strings; complete for the enumerated domain, sampling beyond it.",
     "Trusted: the reference scanner zcv/model.py (written from docs/py-mod-subst.rst, no regular expressions). Zones U8/U11 (DESIGN §5) are executed but not compared.",
     "exhaustive enumeration + Hypothesis random strings vs. reference model (differential oracle)")
+reg("C03", "exploration",
+    "Differential check of the line grammar against an independently written line scanner at two observation points (schemaless loader result; ZConfigParser driven with a recording context): complete for all single lines of up to 4/5 tokens over a 16-token class-representative alphabet in three contexts and for all texts of up to 4 lines over 14 line shapes (3 lines over 28 shapes with directives); Hypothesis sampling for long, deep texts.",
+    "Trusted: zcv/model.py classify_line/ref_events (hand-written from docs/using-zconfig.rst, no regular expressions). Not compared: lone '$' (C04), %define redefinition (C05), line numbers (C08).",
+    "exhaustive enumeration + Hypothesis texts vs. reference line scanner (differential oracle)")
+reg("C17", "exploration",
+    "Round-trip oracle load -> str -> load -> str over the C03 corpus restricted to accepted texts: complete for all single lines of up to 4/5 tokens (bare and nested) and all texts of up to 3/4 lines over 26 line shapes chosen to contain '$$', grammar characters in values, empty values, repeated keys, mixed case, trailing-slash headers and imports; Hypothesis sampling beyond.",
+    "Trusted: structural equality as read through the public dict/attribute interface of schemaless.Section. Texts the loader refuses are outside the quantifier.",
+    "exhaustive enumeration + Hypothesis texts, round-trip oracle")
